@@ -147,6 +147,8 @@ def mc_locktable(run):
     # beyond the bounded model: Exclusive / IdleHoldNothing as an inductive invariant of the set-based restatement of the
     # lock table (behaviours of any length; Apalache). Supplementary: never decides, a missing tool is recorded as skipped
     run.apalache_inductive("LockTableInd.tla")
+    # the same invariant for ANY set of clients and ANY set of integer keys: TLAPS proof (72 obligations)
+    run.tlaps_proof("LockTableProof.tla")
     return res
 
 
